@@ -74,6 +74,12 @@ func (e *Engine) verifyFunction(fc *FuncContract) *FuncResult {
 		st.assume(eq(sym(st.initialHeapName("L:w", 0)), "((as const (Array Int Bool)) false)"))
 		st.assume(eq(sym(st.initialHeapName("L:r", 0)), "((as const (Array Int Int)) 0)"))
 	}
+	for _, a := range e.cs.Lemmas {
+		if a.Axiom {
+			c := &Clause{Kind: "axiom", Src: a.Src, E: a.E, File: a.File, Line: a.Line}
+			st.assume(vf.evalClauseIn(st, c, map[string]*Val{}, nil, a.PkgPath))
+		}
+	}
 	for _, c := range fc.Requires {
 		st.assume(vf.evalClause(st, c, vf.env, nil))
 	}
@@ -104,10 +110,14 @@ func (e *Engine) verifyFunction(fc *FuncContract) *FuncResult {
 
 // canary: on the first returning path "ensures false" must not be provable.
 func (vf *VerifyFunc) canary(st *State) {
+	n := 0
 	for _, o := range vf.obligs {
 		if o.Kind == "canary" {
-			return
+			n++
 		}
+	}
+	if n >= 6 {
+		return // a handful of returning paths is enough: the canary passes when any one of them is feasible
 	}
 	o := &Oblig{Func: shortFuncName(vf.key), Kind: "canary", Label: "ensures-false-must-fail", Src: "ensures false (must NOT be provable)", Goal: "false", ExpectFail: true, Trail: strings.Join(st.trail, " ")}
 	o.Script = st.script("false")
